@@ -45,6 +45,7 @@ def main(argv):
                 continue
             t0 = time.time()
             I = check.make_interp(over)
+            I.registry = pc.REGISTRY
             obs = pcm.verify_contract(I, c, only_config=name)
             print("== %s [%s] %.1fs" % (target, name, time.time() - t0))
             for o in obs:
